@@ -151,9 +151,9 @@ Properties/C04.vos Properties/C04.vok Properties/C04.required_vos: Properties/C0
 Properties/C05.vo Properties/C05.glob Properties/C05.v.beautified Properties/C05.required_vo: Properties/C05.v Ast.vo Generated.vo Config.vo ToConfig.vo Model.vo P_Inert.vo P_Config.vo HookSites.vo WfTree.vo P_CountGlobal.vo P_Names.vo P_NamesProgram.vo
 Properties/C05.vio: Properties/C05.v Ast.vio Generated.vio Config.vio ToConfig.vio Model.vio P_Inert.vio P_Config.vio HookSites.vio WfTree.vio P_CountGlobal.vio P_Names.vio P_NamesProgram.vio
 Properties/C05.vos Properties/C05.vok Properties/C05.required_vos: Properties/C05.v Ast.vos Generated.vos Config.vos ToConfig.vos Model.vos P_Inert.vos P_Config.vos HookSites.vos WfTree.vos P_CountGlobal.vos P_Names.vos P_NamesProgram.vos
-Properties/C06.vo Properties/C06.glob Properties/C06.v.beautified Properties/C06.required_vo: Properties/C06.v Ast.vo Generated.vo Config.vo Model.vo Directives.vo Hygiene.vo P_Local.vo P_Directives.vo
-Properties/C06.vio: Properties/C06.v Ast.vio Generated.vio Config.vio Model.vio Directives.vio Hygiene.vio P_Local.vio P_Directives.vio
-Properties/C06.vos Properties/C06.vok Properties/C06.required_vos: Properties/C06.v Ast.vos Generated.vos Config.vos Model.vos Directives.vos Hygiene.vos P_Local.vos P_Directives.vos
+Properties/C06.vo Properties/C06.glob Properties/C06.v.beautified Properties/C06.required_vo: Properties/C06.v Ast.vo Generated.vo Config.vo Model.vo Directives.vo Hygiene.vo P_Local.vo P_Directives.vo Sem.vo P_Sem.vo
+Properties/C06.vio: Properties/C06.v Ast.vio Generated.vio Config.vio Model.vio Directives.vio Hygiene.vio P_Local.vio P_Directives.vio Sem.vio P_Sem.vio
+Properties/C06.vos Properties/C06.vok Properties/C06.required_vos: Properties/C06.v Ast.vos Generated.vos Config.vos Model.vos Directives.vos Hygiene.vos P_Local.vos P_Directives.vos Sem.vos P_Sem.vos
 Properties/C07.vo Properties/C07.glob Properties/C07.v.beautified Properties/C07.required_vo: Properties/C07.v Ast.vo Generated.vo Config.vo Model.vo Directives.vo P_Directives.vo
 Properties/C07.vio: Properties/C07.v Ast.vio Generated.vio Config.vio Model.vio Directives.vio P_Directives.vio
 Properties/C07.vos Properties/C07.vok Properties/C07.required_vos: Properties/C07.v Ast.vos Generated.vos Config.vos Model.vos Directives.vos P_Directives.vos
